@@ -46,19 +46,19 @@ func ndjsonCommonFiles(f string) bool {
 }
 
 func init() {
-	reg("C05", ruleStateMachineSchemaCheck, ruleStringParsedWideEnough, ruleUnionIndexSkipsNull, ruleTemporaryBatchHasCapacity, ruleEmittedCasesDoNotFallThrough, ruleParallelSlicesStayAligned, ruleIntegerNarrowingChecked, ruleInverseInvolution, ruleWrapperRecursion, ruleChangeKindsConsumed, ruleEndStream, ruleComparersConsultTheirData, rulePreviousSchemasPositional, ruleOldTypesOnTheOldWire)
+	reg("C05", ruleConditionalTargetAssignmentsHaveElse, ruleStateMachineSchemaCheck, ruleStringParsedWideEnough, ruleUnionIndexSkipsNull, ruleTemporaryBatchHasCapacity, ruleEmittedCasesDoNotFallThrough, ruleParallelSlicesStayAligned, ruleIntegerNarrowingChecked, ruleInverseInvolution, ruleWrapperRecursion, ruleChangeKindsConsumed, ruleEndStream, ruleComparersConsultTheirData, rulePreviousSchemasPositional, ruleOldTypesOnTheOldWire)
 	reg("C06", ruleSearchLoopsIterate, rulePointersToScalarsComparedByValue, ruleDefaultGoesToTestedVariable, ruleParallelSlicesStayAligned, ruleParseCachePerPackage, ruleOptionalDeref(evolutionFiles, "NP1", 3), ruleWrapperRecursion, ruleChangeKindsConsumed, ruleChangeDataUsed, ruleComparersConsultTheirData, ruleE3(evoScope, "E3"), ruleE2(evoScope, "E2"), ruleE5(evoScope, "E5"), ruleMapOrderScoped, rulePrunesPartial(evolutionFiles, "V5", 3))
 	reg("C04", ruleSchemaTextExact, ruleResultsOfPureFunctionsUsed, ruleSchemaDefinedBeforeItIsCopied, ruleSchemaListsAndDistinguishes, ruleDefinitionsKeyedByIdentity, ruleNoTestOfUnsetField, ruleNoRunTimeGlobals, ruleOneSchemaFunction, ruleMarshalCoverage, ruleSchemaCanonical, rulePrunes(schemaFiles, "V5", 2), ruleRewriterDescends(schemaFiles, "V8", 2), ruleStateMachineSchemaCheck)
 	reg("C01", ruleUnionIndexUnsignedOnTheWire, ruleEmittedCasesDoNotFallThrough, ruleUnionIndexSkipsNull, rulePlan, ruleRecordOrder, ruleDirectionDuality, ruleCppPrimitiveFamilies, ruleStepFraming, ruleEmptyBatchGuard, ruleEndStream, ruleTrivialRecordTrait, ruleCppEnumUnderlyingType)
 	reg("C16", ruleRequiredPerStepAndExitPropagates, ruleBatchReadReportsCounter, ruleEndStream, ruleStepFraming)
-	reg("C17", ruleTemporaryBatchHasCapacity, ruleEmittedReadersOverwrite, ruleBatchReadReportsCounter, ruleEmptyBatchGuard, ruleStepFraming, ruleFallbackBatchTruncates)
+	reg("C17", ruleConditionalTargetAssignmentsHaveElse, ruleTemporaryBatchHasCapacity, ruleEmittedReadersOverwrite, ruleBatchReadReportsCounter, ruleEmptyBatchGuard, ruleStepFraming, ruleFallbackBatchTruncates)
 	reg("C15", ruleSchemaTextExact, ruleSchemaListsAndDistinguishes, ruleDefinitionsKeyedByIdentity, ruleNoTestOfUnsetField, ruleStateMachineSchemaCheck, ruleMarshalCoverage, ruleSchemaCanonical, rulePrunes(schemaFiles, "V5", 2), ruleRewriterDescends(schemaFiles, "V8", 2), rulePreviousSchemasPositional)
 	reg("C03", ruleUnionTagDecision, ruleEnumDefaultBaseIsInt32, ruleUnionIndexSkipsNull, ruleEmittedSymbols, rulePlan, ruleJsonKinds, ruleTrivialRecordTrait, ruleJsonNamesAreModelNames, ruleCppEnumUnderlyingType)
 	reg("C08", ruleAborts(ndjsonCommonFiles, "P4j", 1), ruleDefinitionSwitchesResolveAliases, ruleAliasNameOnlyForTheAliasedUnion, ruleUnionDtypesBeforeTheirUsers, ruleEmittedLambdasCapture, ruleContextNamespaceThreaded, ruleEmptyDimensionListRejected, ruleNoContradictoryShapeTests, ruleGeneralizeUnderlying, ruleOptionalDeref(backendFiles, "NP1", 20), ruleDocstringQuotePadding, ruleEmittedSymbols, ruleSwitchDefaults(backendFiles, "P4", 25), ruleReservedTables, ruleIdentifierHelpers, ruleDependenciesFirst, ruleOptionGating, ruleUniquenessVsMangling)
 	reg("C19", ruleEveryPatternBranchEmitsTheCaseExpression, ruleShadowedVariableIsRead, ruleFoldKeepsResult, ruleArithmeticOnNumbersOnly, ruleGeneralizeUnderlying, ruleTypingSymmetric, ruleCommonTypeMap, ruleEmitterSiblings, ruleParenthesisation, ruleOperatorTokens, rulePromotionNotBypassed, ruleConversionAlwaysExplicit, ruleMatlabConversionClass, ruleSizeFunctionTokens)
 	reg("C13", ruleExpressionScalarTags, ruleModelDirectoryReadRecursively, ruleShorthandArrayWithoutDimensions, ruleDecodeLoopLeavesOnError, rulePlan, ruleAliasTable, ruleFilesAreCombined, ruleSpellingErased, ruleShorthandTwins, ruleDocCommentSuffix, ruleTypeTags, ruleDimensionItemSpellings, ruleSchemaCanonical, rulePrunes(topoSortFiles, "V5", 2))
 	reg("C07", ruleExitClosesThroughStateCheck, ruleStateMachine, ruleNoReturnBeforeStateGuard)
-	reg("C02", ruleAborts(ndjsonCommonFiles, "P4j", 1), ruleEmittedFlagsNamesOnlyWhenComplete, ruleEmittedReadersOverwrite, ruleJsonKinds, ruleUnionTagDecision, ruleKindTests, ruleOptionalFieldSymmetry, ruleJsonNamesAreModelNames)
+	reg("C02", ruleConditionalTargetAssignmentsHaveElse, ruleAborts(ndjsonCommonFiles, "P4j", 1), ruleEmittedFlagsNamesOnlyWhenComplete, ruleEmittedReadersOverwrite, ruleJsonKinds, ruleUnionTagDecision, ruleKindTests, ruleOptionalFieldSymmetry, ruleJsonNamesAreModelNames)
 	reg("C14", ruleUnionIndexUnsignedOnTheWire, ruleJsonNamesAreModelNames, ruleEnumDefaultBaseIsInt32, ruleUnionIndexSkipsNull, ruleNoContradictoryShapeTests, rulePlan, ruleUnionTagDecision, ruleRecordOrder, ruleOptionalFieldSymmetry, ruleTrivialRecordTrait, ruleMatlabExtentOrderAgrees)
 	reg("C10", ruleAborts(ndjsonCommonFiles, "P4j", 1), ruleSameNodeRecursionDiscriminated, ruleNilableFieldsBeforeAbortingDefault, ruleNilReachesNoAbortingDefault, ruleNoUncheckedAssertionsInFrontEnd, ruleYamlDecodedStrictly, ruleSinksOnlyGrow, rulePassOrder, rulePairAccess, ruleConstIndex(frontEndNoEvolution, "P2", 30), ruleMakeBounds, ruleErrorProvenance, ruleBreakInSwitchInLoop, rulePositions, ruleNodeLiteralsPositioned, ruleBigIndex, ruleAborts(frontEndNoEvolution, "P4", 25), ruleDecodeLoopLeavesOnError, ruleContextLiteralsComplete, ruleDecodeIntoPointerPointer, ruleNullTypeOnlyInUnions, ruleOptionalDeref(func(f string) bool { return frontEndNoEvolution(f) || evolutionFiles(f) }, "NP1", 33),
 		ruleE3(frontScope, "E3"), ruleCollectPackages, ruleBinaryOperatorTokens, ruleReflectiveWalkTerminates)
